@@ -15,7 +15,10 @@ RULE = ("seeded op scripts (insert/operator[]=/get+find/remove/iterate/size) ove
         "(identity, constant, mod 3, frg::hash<uint64_t>, k>>28; the first and last exceed 2^32) selected by the STATE of the hasher "
         "object, which the script re-seeds after the map copied it (op reseed) or which is a temporary (15 % of the cases), plus the "
         "instantiation hash_map<int64_t, V, frg::hash<int64_t>> with mostly negative keys that fit 32/16/8 bits, every get() repeated "
-        "with the key as long, int, short, signed char where it fits (all must return the node get(Key) returns); "
+        "with the key as long, int, short, signed char where it fits (all must return the node get(Key) returns), and the instantiation "
+        "hash_map<Base2*, V, frg::hash<Base2*>> over a pool of Derived : Base1, Base2 objects at a fixed address, every get() repeated with a "
+        "Derived* (and pointers to const where the hasher accepts them); every successful get and every iteration is repeated through "
+        "find() const / const_iterator::operator++ / end() const and compared with the mutable walk; "
         "key spaces 8..2^40 plus 2^32, 2^63, 2^64-1, biased to "
         "cross rehash thresholds; non-trivial = distinct script with more than 10 insertions (>= 1 rehash beyond the first). "
         "POINTER-LEVEL model (coq/HashMap/HashMapPtr.v, proved to refine the chain-level model): the same scripts; compared with the "
